@@ -10,13 +10,38 @@ def renderCheck : HeightCheck → String
   | .expired => "expired"
   | .ok => "ok"
 
+def parseHeights (s : String) : List Int :=
+  if s = "-" then [] else (s.splitOn ",").filterMap String.toInt?
+
+def srcName : HashSource → String
+  | .header => "hdr"
+  | .cache => "cache"
+  | .store => "store"
+  | .notFound => "err"
+
 def step (_ : Unit) (pre post : List String) : Unit × Verdict :=
   let v : Verdict :=
     match pre, post with
+    | ["gpbh", ctxH, h, cached, stored, nils], [res] =>
+      match ctxH.toInt?, h.toInt? with
+      | some ctxH, some h =>
+        let cs := parseHeights cached
+        let ss := parseHeights stored
+        let src := prevBlockHashSource ctxH h (fun x => cs.contains x) (fun x => ss.contains x)
+        let nilHash := (nils.splitOn ",").contains s!"{srcName src}{h}"
+        let m := match src with
+          | .notFound => "err"
+          | _ => if nilHash then s!"cons-{srcName src}:{h}" else s!"{srcName src}:{h - 1}"
+        -- spec: nothing about a block that does not exist yet can be looked up
+        if res ≠ "err" && h > ctxH then
+          .propfail "future-block-hash-available" s!"GetPrevBlockHash({h}) at context height {ctxH} answered {res}"
+        else if m = res then .ok else .diff s!"GetPrevBlockHash({h}) at height {ctxH}: model={m} impl={res}"
+      | _, _ => .bad "numbers"
     | ["win", b, w, s, h, total, blockHash, headerHash, seedHex, hash8],
-      [claimRes, mature, proofRes, req, used, idx, _] =>
-      match b.toInt?, w.toInt?, s.toInt?, h.toInt?, total.toNat?, req.toInt?, used.toInt?, idx.toInt? with
-      | some B, some W, some S, some H, some total, some req, some used, some idx =>
+      [claimRes, mature, proofRes, req, used, idx, eRes, eReq, eUsed, eIdx, _] =>
+      match b.toInt?, w.toInt?, s.toInt?, h.toInt?, total.toNat?, req.toInt?, used.toInt?, idx.toInt?,
+            eReq.toInt?, eUsed.toInt?, eIdx.toInt? with
+      | some B, some W, some S, some H, some total, some req, some used, some idx, some eReq, some eUsed, some eIdx =>
         let p : Params := ⟨B, W⟩
         let ctx := s!"B={B} W={W} S={S} H={H} total={total}"
         if proofRes ≠ "ok" then .diff s!"{ctx}: could not observe the leaf selection: {proofRes}" else
@@ -33,9 +58,18 @@ def step (_ : Unit) (pre post : List String) : Unit × Verdict :=
           (if mReq ≠ req then [s!"proofHeight model={mReq} impl={req}"] else []) ++
           (if mUsed ≠ used then [s!"entropy block model={mUsed} impl={used}"] else []) ++
           (if mSeed ≠ seedHex then [s!"seed model={mSeed} harness={seedHex}"] else []) ++
-          (if mIdx.map Int.ofNat ≠ some idx then [s!"index model={mIdx} impl={idx}"] else [])
+          (if mIdx.map Int.ofNat ≠ some idx then [s!"index model={mIdx} impl={idx}"] else []) ++
+          -- the proof path at the claim height itself, honest world (past heights cached, empty block store)
+          (if eRes = "skip" then [] else
+            let src := indexSource p H S (fun x => decide (x < H)) (fun _ => false)
+            let mE := if src = .notFound then s!"unavail {mReq} -1 -1" else s!"ok {mReq} {mUsed} {idx}"
+            let iE := s!"{eRes} {eReq} {eUsed} {eIdx}"
+            if mE ≠ iE then [s!"proof at the claim height: model={mE} impl={iE}"] else [])
         -- executable specification on the implementation's own answers
         if idx < 0 || idx ≥ total then .propfail "leaf-index-out-of-range" s!"{ctx} index={idx}"
+        else if eRes = "ok" && H < S + W * B then
+          .propfail "leaf-index-available-before-selecting-block"
+            s!"{ctx}: at height {H} ValidateProof hands out leaf {eIdx} (hash of block {eUsed}) although the selecting block {S + W * B} does not exist yet; claim at this height: {claimRes}"
         else if claimRes = "ok" && used < H then
           if H = S + W * B then
             if diffs.isEmpty then
@@ -46,7 +80,7 @@ def step (_ : Unit) (pre post : List String) : Unit × Verdict :=
           .propfail "claim-accepted-before-session-end" ctx
         else if diffs.isEmpty then .ok
         else .diff (s!"{ctx}: " ++ "; ".intercalate diffs)
-      | _, _, _, _, _, _, _, _ => .bad "numbers"
+      | _, _, _, _, _, _, _, _, _, _, _ => .bad "numbers"
     | _, _ => .bad "op"
   ((), v)
 
